@@ -90,6 +90,24 @@ theorem pipeline_progress (p : Pipe) (hcap : capsPos p = true) (hne : allEmpty p
   | none => rw [hm] at hi; cases hi
   | some p' => exact ⟨i, p', hm, move_measure p i false p' hm⟩
 
+/-- (2') **The archiver's channel network** (not a line: `parallel_map` workers fan out to the data packer and to the
+ordered output queue, the main thread feeds the tree packer, both packers end in their file-writer actor).  For ANY
+network of bounded buffers whose hand-overs all go downstream (`Net.WF`: a DAG in node order, every buffer can hold an
+item): in EVERY state with an item anywhere — whatever the workers have expanded files into — some node can move (no
+deadlock: the most downstream non-empty node either lets its item leave or hands it to an empty buffer), the number of
+nodes is unchanged and the move strictly decreases a natural-number measure (no livelock). -/
+theorem network_progress (net : Net) (s : NSt) (hwf : net.WF s.length) (hne : ∃ i, getBuf s i ≠ []) :
+    ∃ i s', moveN net s i = some s' ∧ s'.length = s.length ∧ measureN s' < measureN s :=
+  net_progress net s hwf hne
+
+/-- (2'') … and `archiverNet` — source/`TreeIterator`/`Parent` → file-archiver workers → {data packer line, ordered
+output → `tree_archiver.add` → tree packer line} — is such a network, so the backup pipeline as a whole always has
+an enabled step until it has drained. -/
+theorem archiver_network_progress (s : NSt) (hlen : s.length = 16) (hne : ∃ i, getBuf s i ≠ []) :
+    ∃ i s', moveN archiverNet s i = some s' ∧ s'.length = 16 ∧ measureN s' < measureN s := by
+  obtain ⟨i, s', h1, h2, h3⟩ := net_progress archiverNet s (hlen ▸ archiverNet_wf) hne
+  exact ⟨i, s', h1, h2 ▸ hlen, h3⟩
+
 end Streamer
 
 /-- (3) **No unindexed blob / pack.**  For every schedule of packer, file-writer and indexer events (any
@@ -186,6 +204,16 @@ open Rustic.Streamer in
 example : ∃ i p', move [([1], 1), ([], 1), ([2], 1), ([], 1)] i false = some p' ∧
     measure p' < measure [([1], 1), ([], 1), ([2], 1), ([], 1)] :=
   pipeline_progress _ (by decide) (by decide)
+
+open Rustic.Streamer in
+/-- the archiver network with the workers full (two chunks, two processed items), a tree blob in the main thread's hands,
+the data writer queue occupied: the data file writer (node 9, the most downstream non-empty node) is the move the proof picks … -/
+example : moveN archiverNet [[], [1, 2, 5, 4], [6], [7], [], [], [], [], [], [11], [], [], [], [], [], []] 9 =
+    some [[], [1, 2, 5, 4], [6], [7], [], [], [], [], [], [], [], [], [], [], [], []] := by decide
+
+open Rustic.Streamer in
+/-- … and a worker blocked on the full data-packer hand-over is NOT enabled (the model has blocking sends) -/
+example : moveN archiverNet [[], [1], [], [], [9], [], [], [], [], [], [], [], [], [], [], []] 1 = none := by decide
 
 /-- writing is delayed behind three flushes: everything is indexed at finalize -/
 example : (finalizeAll (runEvs { typed := true }
